@@ -26,13 +26,13 @@ API_NAME = {0: "dispatch_async", 1: "dispatch_async_f", 2: "dispatch_barrier_asy
 FLAG_NAMES = ["stack ids known", "find_queue(model) = _dispatch_thread_frame_find_queue on the observed stack",
               "get_specific(model) = dispatch_get_specific on the observed stack", "current queue label (model on the observed stack)",
               "assert_queue(model) = exit status", "assert_queue_not(model) = exit status",
-              "observed stack = frames_of_path", "frames left out are redirections through concurrent queues",
+              "observed stack is one of the stacks frames_of_path allows (every sublist of the frames redirection may leave out)",
               "dispatch_get_specific = value of the nearest queue of the chain", "current queue = queue submitted to",
               "dispatch_assert_queue accepts exactly chain + submitting context", "dispatch_assert_queue_not accepts exactly the others",
               "every queue drain-locked by the executing thread is on the chain or in the submitting context"]
-NFLAGS = 13
-TIE_FLAGS = range(0, 8)       # model vs library (a broken tie)
-JUDGE_FLAGS = range(8, 13)    # library vs the property
+NFLAGS = 12
+TIE_FLAGS = range(0, 7)       # model vs library (a broken tie)
+JUDGE_FLAGS = range(7, 12)    # library vs the property
 
 
 # ---------------------------------------------------------------------------------------------- scenario generation
@@ -156,9 +156,12 @@ def gen_scenario(rng, idx, assert_every=3):
             elif items and rng.chance(1, 4):
                 # nested: from inside an earlier item of THIS phase whose context holds none of our non-root queues
                 cands = []
+                # (queues shared with the context are allowed when they are all concurrent, strictly below both tops: then the
+                #  shared part of the chains is concurrent down to the root queue and nobody in the context holds its drain lock)
                 for o in items:
-                    held = set(o["held"])
-                    if not (held & set(ch)) and o["niter"] == 1 and len(o["children"]) < 4:
+                    shared = set(o["held"]) & set(ch)
+                    ok = all(kind.get(x) == "c" and x != q and x not in o["tops"] for x in shared)
+                    if ok and o["niter"] == 1 and len(o["children"]) < 4:
                         cands.append(o)
                 if cands:
                     o = rng.choice(cands)
@@ -173,13 +176,16 @@ def gen_scenario(rng, idx, assert_every=3):
                 q = -1
                 ch = []
             held = list(ch)
+            tops = [q]
             if ctx == "M":
                 held.append(MAIN)
             if ctx.startswith("N"):
-                held += [o for o in items if o["iid"] == int(ctx[1:])][0]["held"]
+                outer = [o for o in items if o["iid"] == int(ctx[1:])][0]
+                held += outer["held"]
+                tops += outer["tops"]
             amode = 1 if (iid[0] % assert_every == 0) else 0
             items.append({"iid": iid[0], "api": api, "qid": q, "ctx": ctx, "busy": busy, "niter": niter, "amode": amode,
-                          "held": held, "children": []})
+                          "held": held, "tops": tops, "children": []})
         return items
 
     s.phases.append({"sets": gen_sets(rng.range(3, 9)), "items": gen_items(rng.range(4, 9))})
@@ -212,6 +218,23 @@ def corpus():
         items.append({"iid": i, "api": api, "qid": 6, "ctx": "T", "busy": 0, "niter": 3 if api == 20 else 1, "amode": 1 if api == 0 else 0})
     i += 1
     items.append({"iid": i, "api": 0, "qid": 6, "ctx": "T", "busy": 5, "niter": 1, "amode": 0})
+    s.phases = [{"sets": sets, "items": items}]
+    s.want_posted = s.want_total = 0
+    out.append(s)
+    # synchronous submissions from inside an item onto a queue whose chain INTERSECTS the context in concurrent queues:
+    # 6 (serial) -> 5 -> 4 (concurrent) -> root, 7 (serial) -> 5, 8 (concurrent) -> 4
+    s = Scn()
+    s.mode, s.nk = "cf", 2
+    s.queues = [(4, "c", 0), (5, "c", 4), (6, "s", 5), (7, "s", 5), (8, "c", 4)]
+    s.watch = [MAIN, SRC, 104, 106, 107]
+    sets = [(4, 1, 8001, 0), (5, 2, 8002, 0), (7, 1, 8003, 0), (8, 2, 8004, 1)]
+    items = [{"iid": 1, "api": 0, "qid": 6, "ctx": "T", "busy": 0, "niter": 1, "amode": 1}]
+    i = 1
+    for api, q in ((10, 7), (12, 7), (14, 7), (11, 8), (17, 8), (20, 7)):
+        i += 1
+        items.append({"iid": i, "api": api, "qid": q, "ctx": "N1", "busy": 0, "niter": 2 if api == 20 else 1, "amode": 1 if i % 2 == 0 else 0})
+    items.append({"iid": i + 1, "api": 1, "qid": 8, "ctx": "T", "busy": 0, "niter": 1, "amode": 0})
+    items.append({"iid": i + 2, "api": 13, "qid": 6, "ctx": "N%d" % (i + 1), "busy": 0, "niter": 1, "amode": 1})
     s.phases = [{"sets": sets, "items": items}]
     s.want_posted = s.want_total = 0
     out.append(s)
